@@ -208,3 +208,13 @@ CASES += [
  dict(id='queens-row-or', kind='fire', file=Q, old='        writeln!(writer, "] = 1 &")?;\n    }\n\n    writeln!(writer)?;\n    writeln!(writer, "\\"every column', new='        writeln!(writer, "] = 1 |")?;\n    }\n\n    writeln!(writer)?;\n    writeln!(writer, "\\"every column', expect={'C15': 'operator'}),
  dict(id='sudoku-eq-2', kind='fire', file=U, old='            writeln!(writer, "[{}] = 1 &", vars)?;\n\n            let vars = (0..square)\n                .map(|j| format!("_{}_is_{}", j * square + i, k))', new='            writeln!(writer, "[{}] = 2 &", vars)?;\n\n            let vars = (0..square)\n                .map(|j| format!("_{}_is_{}", j * square + i, k))', expect={'C17': 'list #2'}),
 ]
+
+CASES += [
+ dict(id='graph-writer-swap', kind='fire', file=G, old='writeln!(writer, "    {} -> {}", edge.0, edge.1)?;', new='writeln!(writer, "    {} -> {}", edge.1, edge.0)?;', expect={'C18': 'writer'}),
+ dict(id='graph-writer-arrow', kind='fire', file=G, old='writeln!(writer, "    {} -- {}", edge.0, edge.1)?;', new='writeln!(writer, "    {} -> {}", edge.0, edge.1)?;', expect={'C18': 'writer'}),
+]
+
+CASES += [
+ dict(id='colours-from-one', kind='fire', file=G, old='for color in 0..num_colors {', new='for color in 1..num_colors {', expect={'C18': 'colour range'}),
+ dict(id='colours-map-swap', kind='fire', file=G, old='vertex_map.insert(v2.clone(), edge.1.clone());', new='vertex_map.insert(v2.clone(), edge.0.clone());', expect={'C18': 'product vertices'}),
+]
